@@ -358,8 +358,12 @@ func (w *walker) drainStream(r pdf.Getter, stm *pdf.Stream, ref pdf.Reference) {
 	outBound := int64(-1)
 	if filters, err := pdf.GetFilters(r, nil, stm.Dict); err == nil && len(filters) > 0 {
 		if _, ok := filters[len(filters)-1].(pdf.FilterCCITTFax); ok {
-			outBound = limits.MaxImagePixels/8 + limits.MaxImageHeight
-			limit = outBound + 1
+			// judged only while the drain budget of the walk lasts: a file
+			// may hold hundreds of such streams, 16 MiB each
+			if w.total < totalDrainCap {
+				outBound = limits.MaxImagePixels/8 + limits.MaxImageHeight
+				limit = outBound + 1
+			}
 			st.CCITTStreams++
 		}
 	}
